@@ -264,7 +264,9 @@ def mutate_tree(pl, rng, root):
             if not data:
                 return None
             i = rng.randrange(len(data))
-            new = data[:i] + bytes([data[i] ^ 0x55]) + data[i + 1:]
+            orig = pl.files.get(p, b'')
+            avoid = {data[i]} | ({orig[i]} if i < len(orig) else set())
+            new = data[:i] + bytes([rng.choice([b for b in range(256) if b not in avoid])]) + data[i + 1:]
             open(fp, 'wb').write(new)
             os.utime(fp, ns=(st.st_mtime_ns + 10**9, st.st_mtime_ns + 10**9))
             # detectable only through a listed digest (an entry without checksums pins the size alone)
